@@ -288,6 +288,7 @@ class Normalizer:
         tag = f"__i{self.counter}"
         pre: List[ast.stmt] = []
         env: Dict[str, ast.AST] = {}
+        pren: Dict[str, str] = {}
         # parameters assigned inside the helper must become locals
         stored = {n.id for n in ast.walk(fd.node) if isinstance(n, ast.Name) and isinstance(n.ctx, ast.Store)}
         for p, a in sub.items():
@@ -299,6 +300,8 @@ class Normalizer:
                 nm = p + tag
                 pre.append(ast.Assign(targets=[ast.Name(id=nm, ctx=ast.Store())], value=copy.deepcopy(a)))
                 env[p] = ast.Name(id=nm, ctx=ast.Load())
+                if p in stored:
+                    pren[p] = nm          # the helper rebinds its parameter: stores must hit the same local copy
         locals_ = {n for n in stored if n not in sub}
         for st in ast.walk(fd.node):
             if isinstance(st, ast.comprehension):
@@ -306,6 +309,7 @@ class Normalizer:
                     if isinstance(n, ast.Name):
                         locals_.add(n.id)
         ren = {n: n + tag for n in locals_}
+        ren.update(pren)
         body = [s for s in copy.deepcopy(fd.node.body) if not (isinstance(s, ast.Expr) and isinstance(s.value, ast.Constant))]
 
         caller_result = result
